@@ -69,8 +69,10 @@ class Renderer:
         if not stmts:
             self.emit(ind, 'pass')
             return
-        for i, s in enumerate(stmts):
-            self.stmt(s, ind, first and i == 0)
+        for s in stmts:
+            self.stmt(s, ind, first)
+            if s[0] != 'comment':        # comments are transparent for "first action"
+                first = False
 
     def tick(self, ind):
         self.emit(ind, 'yield _t()')
@@ -88,6 +90,8 @@ class Renderer:
             self.emit(ind, f"{s[1]} = {s[2]}")
         elif k == 'expr':
             self.emit(ind, s[1])
+        elif k == 'comment':
+            self.emit(ind, 'pass' if ref else f"std.comment({s[1]!r})")
         elif k == 'ret':
             self.emit(ind, 'return' if s[1] is None else f"return {s[1]}")
         elif k == 'if':
